@@ -165,3 +165,46 @@ func verifCanary(label string, cond bool) {}
 //@   canary ensures [C15:canary-oaep-sha256-exact] result1 == nil ==> result0.plainttextBlockSize == result0.blockSize - 66
 //@   ensures [C15:sane-lengths] result1 == nil ==> 0 <= result0.signatureLength && result0.signatureLength <= 512 &&
 //@           0 <= result0.remoteSignatureLength && result0.remoteSignatureLength <= 512
+
+// The RSA block loops: for every input length, every block handed to the RSA primitive fits the key
+// ([block-fits] preconditions of the assumed primitives), the loop terminates, and nothing panics.
+// The keys satisfy the constructors' limits (precondition: the modulus is larger than the padding).
+//@ func (*RSAOAEP).Encrypt
+//@   props C15
+//@   requires a != nil
+//@   requires [key-limits] a.PublicKey != nil ==> rsa.keySize(a.PublicKey) >= 128 && rsa.keySize(a.PublicKey) <= 512 && (a.Hash == 3 || (a.Hash == 5 && rsa.keySize(a.PublicKey) >= 256))
+//@   assigns nothing
+//@   loop 0 invariant 0 <= start && start <= len(src) && srcRemaining == len(src) - start && maxBlock > 0 && a != nil && a.PublicKey != nil
+//@   loop 0 invariant arr(ciphertext) == 0 || fresh(ciphertext)
+//@   loop 0 invariant maxBlock == rsa.keySize(a.PublicKey) - ite(a.Hash == 3, 42, 130)
+//@   loop 0 decreases srcRemaining
+
+//@ func (*RSAOAEP).Decrypt
+//@   props C15
+//@   requires a != nil
+//@   requires [key-limits] a.PrivateKey != nil ==> rsa.keySize(&a.PrivateKey.PublicKey) >= 128 && rsa.keySize(&a.PrivateKey.PublicKey) <= 512
+//@   assigns nothing
+//@   loop 0 invariant 0 <= start && start <= len(src) && srcRemaining == len(src) - start && blockSize > 0 && a != nil && a.PrivateKey != nil
+//@   loop 0 invariant blockSize == rsa.keySize(&a.PrivateKey.PublicKey)
+//@   loop 0 invariant arr(plaintext) == 0 || fresh(plaintext)
+//@   loop 0 decreases srcRemaining
+
+//@ func (*PKCS1v15).Encrypt
+//@   props C15
+//@   requires c != nil
+//@   requires [key-limits] c.PublicKey != nil ==> rsa.keySize(c.PublicKey) >= 128 && rsa.keySize(c.PublicKey) <= 512
+//@   assigns nothing
+//@   loop 0 invariant 0 <= start && start <= len(src) && srcRemaining == len(src) - start && maxBlock > 0 && c != nil && c.PublicKey != nil
+//@   loop 0 invariant maxBlock == rsa.keySize(c.PublicKey) - 11
+//@   loop 0 invariant arr(ciphertext) == 0 || fresh(ciphertext)
+//@   loop 0 decreases srcRemaining
+
+//@ func (*PKCS1v15).Decrypt
+//@   props C15
+//@   requires c != nil
+//@   requires [key-limits] c.PrivateKey != nil ==> rsa.keySize(&c.PrivateKey.PublicKey) >= 128 && rsa.keySize(&c.PrivateKey.PublicKey) <= 512
+//@   assigns nothing
+//@   loop 0 invariant 0 <= start && start <= len(src) && srcRemaining == len(src) - start && blockSize > 0 && c != nil && c.PrivateKey != nil
+//@   loop 0 invariant blockSize == rsa.keySize(&c.PrivateKey.PublicKey)
+//@   loop 0 invariant arr(plaintext) == 0 || fresh(plaintext)
+//@   loop 0 decreases srcRemaining
